@@ -13,6 +13,89 @@ from interp import *  # noqa
 import interp
 
 
+class DateV:
+    """symbolic chrono::NaiveDate (year, month, day as z3 Ints; validity is a side constraint or an Option)"""
+    __slots__ = ("y", "m", "d")
+
+    def __init__(self, y, m, d):
+        self.y, self.m, self.d = y, m, d
+
+
+class TimeV:
+    __slots__ = ("h", "mi", "s")
+
+    def __init__(self, h, mi, s=0):
+        self.h, self.mi, self.s = h, mi, s
+
+
+class ChronoStr:
+    """the text chrono's `format(fmt)` produces for a date/time — kept symbolic so that the library pair
+    format / parse_from_str (same format string) is recognised as an inverse pair without string solving"""
+    __slots__ = ("v", "fmt", "machine")
+
+    def __init__(self, v, fmt, machine):
+        self.v, self.fmt, self.machine = v, fmt, machine
+
+    def z(self):
+        return self.machine.chrono_text(self.v, self.fmt)
+
+
+_orig_to_strz = interp.to_strz
+
+
+def _to_strz_ext(x):
+    if isinstance(x, ChronoStr):
+        return x.z()
+    return _orig_to_strz(x)
+
+
+interp.to_strz = _to_strz_ext
+to_strz = _to_strz_ext
+
+
+def days_in_month(y, m):
+    leap = z3.Or(z3.And(y % 4 == 0, y % 100 != 0), y % 400 == 0)
+    return z3.If(z3.Or(m == 1, m == 3, m == 5, m == 7, m == 8, m == 10, m == 12), 31,
+                 z3.If(z3.Or(m == 4, m == 6, m == 9, m == 11), 30, z3.If(leap, 29, 28)))
+
+
+def valid_date(y, m, d):
+    return z3.And(m >= 1, m <= 12, d >= 1, d <= days_in_month(y, m), y >= -262143, y <= 262142)
+
+
+def digit_char(d):
+    return z3.StrFromCode(48 + d)
+
+
+def pad(v, width, bounded=False):
+    """decimal rendering of an Int in [0, 10^width) zero padded to `width` (like {:0width}), built from digit
+    characters (no int<->string conversion terms: those make z3's sequence solver give up); values with more
+    digits than `width` are rendered in full like Rust does"""
+    if width <= 4:
+        digs = []
+        for k in reversed(range(width)):
+            digs.append(digit_char((v / (10 ** k)) % 10))
+        small = z3.Concat(*digs) if len(digs) > 1 else digs[0]
+        if bounded:
+            return small
+        return z3.If(z3.And(v >= 0, v < 10 ** width), small, z3.IntToStr(v))
+    sv = z3.IntToStr(v)
+    out = sv
+    for w in range(1, width):
+        out = z3.If(z3.Length(sv) == w, z3.Concat(z3.StringVal("0" * (width - w)), sv), out)
+    return out
+
+
+def const_len_substring(sz):
+    """(base, offset, L) if sz is str.substr(base, off, L) with numeral L <= 4"""
+    try:
+        if sz.decl().kind() == z3.Z3_OP_SEQ_EXTRACT and z3.is_int_value(sz.arg(2)) and sz.arg(2).as_long() <= 4:
+            return sz.arg(0), sz.arg(1), sz.arg(2).as_long()
+    except Exception:
+        pass
+    return None
+
+
 class StructMachine(Machine):
     def __init__(self, prog, K=2):
         super().__init__(prog, 1)
@@ -20,6 +103,7 @@ class StructMachine(Machine):
         self.counter = 0
         self.constraints = []
         self.leaves = []   # (path, kind, term) for model read-back
+        self.deser_inputs = []
         self.CASE_LEN = 8
         self.bounds_used = set()
         self.type_tags = {}
@@ -68,7 +152,20 @@ class StructMachine(Machine):
             self.constraints.append(z3.Length(s) == 1)
             self.leaves.append((path, "str", s))
             return StrZ(s)
-        if ty in ("NaiveDate", "NaiveTime", "chrono::NaiveDate", "chrono::NaiveTime", "NaiveDateTime"):
+        if ty in ("NaiveDate", "chrono::NaiveDate"):
+            y, mo, d = (z3.Int(self.fresh_name(path + "." + k)) for k in ("year", "month", "day"))
+            # dates a parsed message can hold: the 50-year pivot window
+            self.constraints += [y >= 1950, y <= 2049, valid_date(y, mo, d)]
+            for k, t in (("year", y), ("month", mo), ("day", d)):
+                self.leaves.append((path + "." + k, "int", t))
+            return DateV(y, mo, d)
+        if ty in ("NaiveTime", "chrono::NaiveTime"):
+            h, mi = z3.Int(self.fresh_name(path + ".hour")), z3.Int(self.fresh_name(path + ".minute"))
+            self.constraints += [h >= 0, h <= 23, mi >= 0, mi <= 59]
+            self.leaves.append((path + ".hour", "int", h))
+            self.leaves.append((path + ".minute", "int", mi))
+            return TimeV(h, mi, 0)
+        if ty in ("NaiveDateTime",):
             return Opaque(ty)
         if ty.startswith("HashMap<") or ty.startswith("std::collections::HashMap<"):
             return VecV(())
@@ -95,12 +192,7 @@ class StructMachine(Machine):
             return FPV(z3.FPVal(float(l["v"]), z3.Float64()))
         return super().ev_lit(e, fr, guard)
 
-    def ev_binary(self, e, fr, guard):
-        op = e["op"]
-        if op in ("&&", "||"):
-            return super().ev_binary(e, fr, guard)
-        a = self.eval(e["left"], fr, guard)
-        b = self.eval(e["right"], fr, guard)
+    def binop(self, e, op, a, b, fr, guard):
         if isinstance(a, FPV) or isinstance(b, FPV):
             fa, fb = to_fp(a), to_fp(b)
             rm = z3.RNE()
@@ -129,8 +221,7 @@ class StructMachine(Machine):
                 self.assign(e["left"], nv, fr, guard)
                 return UNIT
             raise Unsupported("float operator %s" % op)
-        # re-dispatch to the generic implementation with the already evaluated operands
-        return self.binary_vals(e, op, a, b, fr, guard)
+        return super().binop(e, op, a, b, fr, guard)
 
     def equals(self, a, b):
         if isinstance(a, Opt) and isinstance(b, Opt):
@@ -138,20 +229,6 @@ class StructMachine(Machine):
                 return And(Not(a.present), Not(b.present))
             return Or(And(Not(a.present), Not(b.present)), And(a.present, b.present, self.equals(a.val, b.val)))
         return super().equals(a, b)
-
-    def binary_vals(self, e, op, a, b, fr, guard):
-        if op in ("+=", "-="):
-            nv = (a + b) if op == "+=" else (a - b)
-            self.assign(e["left"], nv, fr, guard)
-            return UNIT
-        if op in ("==", "!="):
-            r = self.equals(a, b)
-            return r if op == "==" else Not(r)
-        num = lambda x: (isinstance(x, int) and not isinstance(x, bool)) or is_intterm(x)
-        if num(a) and num(b):
-            return {"+": lambda: a + b, "-": lambda: a - b, "*": lambda: a * b, "<": lambda: a < b, "<=": lambda: a <= b,
-                    ">": lambda: a > b, ">=": lambda: a >= b}[op]()
-        raise Unsupported("binary %s on %s,%s" % (op, type(a).__name__, type(b).__name__))
 
     def ev_if(self, e, fr, guard):
         cond = e["cond"]
@@ -185,6 +262,8 @@ class StructMachine(Machine):
     def ev_index(self, e, fr, guard):
         base = self.eval(e["base"], fr, guard)
         idx = e["index"]
+        if isinstance(base, ChronoStr):
+            base = StrZ(base.z())
         if isinstance(base, (StrZ, str)) and idx["k"] == "range":
             st = self.eval(idx["start"], fr, guard) if idx.get("start") is not None else 0
             s = to_strz(base)
@@ -232,12 +311,97 @@ class StructMachine(Machine):
             raise Unsupported("matches!")
         if name == "format":
             args = e.get("args") or []
-            if len(args) == 2 and args[0]["k"] == "lit" and args[0]["lit"]["v"] == "{:02}":
-                v = self.eval(args[1], fr, guard)
-                if is_intterm(v):
-                    return StrZ(z3.If(v < 10, z3.Concat(z3.StringVal("0"), z3.IntToStr(v)), z3.IntToStr(v)))
+            if args and args[0]["k"] == "lit" and args[0]["lit"].get("k") == "str":
+                vals = [self.eval(a, fr, guard) for a in args[1:]]
+                r0 = Machine.format(self, args[0]["lit"]["v"], vals, fr)     # concrete / finite-alternative strings
+                if not isinstance(r0, Opaque):
+                    return r0
+                r = self.format_z(args[0]["lit"]["v"], vals, fr)
+                if r is not None:
+                    return r
             return Opaque("format")
         return super().ev_macro(e, fr, guard)
+
+    def format_z(self, tmpl, vals, fr):
+        """format! with {} / {:02} / {:0N} / {:.N} placeholders over strings, ints, floats -> z3 string (or None)"""
+        import re as _re2
+        pieces, vi = [], 0
+        for kind, p in interp.fmt_pieces(tmpl):
+            if kind == "arg":
+                inner = p
+                name, _, spec = inner.partition(":")
+                if name == "":
+                    if vi >= len(vals):
+                        return None
+                    v = vals[vi]
+                    vi += 1
+                elif name in fr.vars:
+                    v = fr.vars[name]
+                else:
+                    return None
+                if isinstance(v, FieldEmit):
+                    return None
+                if isinstance(v, FPV):
+                    m = _re2.fullmatch(r"\.(\d+)", spec)
+                    if not m:
+                        return None
+                    pieces.append(self.amount_text(v.f, int(m.group(1))))
+                    continue
+                if is_intterm(v) or (isinstance(v, int) and not isinstance(v, bool)):
+                    iv = v if is_sym(v) else z3.IntVal(v)
+                    m = _re2.fullmatch(r"0(\d+)", spec)
+                    if spec == "":
+                        pieces.append(z3.IntToStr(iv))
+                    elif m:
+                        pieces.append(pad(iv, int(m.group(1))))
+                    else:
+                        return None
+                    continue
+                if spec != "":
+                    return None
+                try:
+                    pieces.append(to_strz(v))
+                except Unsupported:
+                    return None
+            else:
+                if p:
+                    pieces.append(z3.StringVal(p))
+        if not pieces:
+            return ""
+        return StrZ(z3.Concat(*pieces) if len(pieces) > 1 else pieces[0])
+
+    def chrono_format(self, v, fmt):
+        return ChronoStr(v, fmt, self)
+
+    def chrono_text(self, v, fmt):
+        import re as _re2
+        out = []
+        for tok in _re2.findall(r"%.|[^%]+", fmt):
+            if tok == "%y":
+                out.append(pad(v.y % 100, 2, True))
+            elif tok == "%Y":
+                out.append(pad(v.y, 4, True))
+            elif tok == "%m":
+                out.append(pad(v.m, 2, True))
+            elif tok == "%d":
+                out.append(pad(v.d, 2, True))
+            elif tok == "%H":
+                out.append(pad(v.h, 2, True))
+            elif tok == "%M":
+                out.append(pad(v.mi, 2, True))
+            elif tok == "%S":
+                out.append(pad(v.s if is_sym(v.s) else z3.IntVal(v.s), 2, True))
+            elif tok.startswith("%"):
+                raise Unsupported("chrono format item %s" % tok)
+            else:
+                out.append(z3.StringVal(tok))
+        return z3.Concat(*out) if len(out) > 1 else out[0]
+
+    def amount_text(self, f, decimals):
+        """text of an f64 rendered with a fixed number of decimals — uninterpreted (the decimal pipeline is C06's subject)"""
+        if not hasattr(self, "_amt"):
+            self._amt = z3.Function("fmt_f64", z3.Float64(), z3.IntSort(), z3.StringSort())
+        return self._amt(f, z3.IntVal(decimals))
 
     # -- methods on the new values -------------------------------------------------------------------
     def builtin_method(self, recv, meth, args, e, fr, guard):
@@ -292,6 +456,14 @@ class StructMachine(Machine):
             if meth == "find" and isinstance(args[0], (str, StrZ)):
                 i = z3.IndexOf(s, to_strz(args[0]), 0)
                 return Opt(i >= 0, i)
+        if isinstance(recv, (str, StrZ, ChronoStr)) and meth in ("push_str", "push") and args and not isinstance(args[0], (FieldEmit, EmitV, Opaque)) \
+                and not (isinstance(recv, str) and isinstance(args[0], str) and self.N > 1):
+            a0 = args[0]
+            if isinstance(recv, str) and isinstance(a0, str):
+                self.assign(e["recv"], recv + a0, fr, guard)
+            else:
+                self.assign(e["recv"], StrZ(z3.Concat(to_strz(recv), to_strz(a0))), fr, guard)
+            return UNIT
         if isinstance(recv, str) and not any(isinstance(a, StrZ) for a in args):
             if meth in ("to_uppercase", "to_ascii_uppercase"):
                 return recv.upper()
@@ -305,6 +477,52 @@ class StructMachine(Machine):
                 return recv.endswith(args[0])
             if meth == "trim":
                 return recv.strip()
+        if isinstance(recv, ChronoStr):
+            if meth in ("to_string", "clone", "as_str", "to_owned", "as_ref", "borrow", "into"):
+                return recv
+            return self.builtin_method(StrZ(recv.z()), meth, args, e, fr, guard)
+        if isinstance(recv, DateV):
+            if meth == "year":
+                return recv.y
+            if meth == "month":
+                return recv.m
+            if meth == "day":
+                return recv.d
+            if meth == "format" and args and isinstance(args[0], str):
+                return self.chrono_format(recv, args[0])
+            if meth in ("clone", "to_owned"):
+                return recv
+        if isinstance(recv, TimeV):
+            if meth == "hour":
+                return recv.h
+            if meth == "minute":
+                return recv.mi
+            if meth == "second":
+                return recv.s
+            if meth == "format" and args and isinstance(args[0], str):
+                return self.chrono_format(recv, args[0])
+            if meth in ("clone", "to_owned"):
+                return recv
+        if isinstance(recv, (StrZ,)) and meth == "parse" and const_len_substring(recv.s) is not None:
+            base, off, L = const_len_substring(recv.s)
+            codes = [z3.StrToCode(z3.SubString(base, off + k, 1)) for k in range(L)]
+            isd = lambda c: z3.And(c >= 48, c <= 57)
+            full = z3.Length(recv.s) == L
+            plain = z3.And(full, *[isd(c) for c in codes])
+            val_plain = sum((codes[k] - 48) * (10 ** (L - 1 - k)) for k in range(L))
+            if L >= 2:
+                signed = z3.And(full, codes[0] == 43, *[isd(c) for c in codes[1:]])
+                val_signed = sum((codes[k] - 48) * (10 ** (L - 1 - k)) for k in range(1, L))
+                return Res(z3.Or(plain, signed), z3.If(plain, val_plain, val_signed), Opaque("ParseIntError"))
+            return Res(plain, val_plain, Opaque("ParseIntError"))
+        if isinstance(recv, (StrZ,)) and meth == "parse":
+            sz = recv.s
+            digits = z3.Plus(z3.Range("0", "9"))
+            ok = z3.Or(z3.InRe(sz, digits), z3.InRe(sz, z3.Concat(z3.Re("+"), digits)))
+            val = z3.If(z3.PrefixOf(z3.StringVal("+"), sz), z3.StrToInt(z3.SubString(sz, 1, z3.Length(sz) - 1)), z3.StrToInt(sz))
+            return Res(ok, val, Opaque("ParseIntError"))
+        if isinstance(recv, StrZ) and meth == "replace" and len(args) == 2:
+            return StrZ(z3.Replace(recv.s, to_strz(args[0]), to_strz(args[1])))
         if isinstance(recv, FPV):
             if meth == "abs":
                 return FPV(z3.fpAbs(recv.f))
@@ -428,6 +646,8 @@ class StructMachine(Machine):
             if m is not None:
                 return self.invoke(m, [], fr, guard, recv.name, None, recv=recv, recv_expr=None) if not e["args"] else \
                     self.invoke(m, e["args"], fr, guard, recv.name, e.get("turbofish"), recv=recv, recv_expr=None)
+        if meth == "serialize_str" and args:
+            return Res(True, args[0], Opaque("ser-error"))
         if meth == "downcast_ref":
             want = (e.get("turbofish") or ["?"])[0].split("::")[-1]
             have = recv.name if isinstance(recv, StructV) else None
@@ -435,6 +655,17 @@ class StructMachine(Machine):
         if isinstance(recv, Opaque) and meth in ("format", "to_string", "clone", "year", "month", "day"):
             return Opaque(meth)
         return super().builtin_method(recv, meth, args, e, fr, guard)
+
+    def invoke(self, m, arg_exprs, fr, guard, self_ty, turbofish=None, recv=None, recv_expr=None):
+        name = m[0]["sig"]["name"]
+        if m[2] is None and name in ("format_swift_amount", "format_swift_amount_for_currency"):
+            args = [self.eval(a, fr, guard) for a in arg_exprs]
+            if isinstance(args[0], FPV):
+                # text of an amount: uninterpreted (the decimal pipeline is outside this encoding)
+                if not hasattr(self, "_amt2"):
+                    self._amt2 = z3.Function("swift_amount_text", z3.Float64(), z3.StringSort())
+                return StrZ(self._amt2(args[0].f))
+        return super().invoke(m, arg_exprs, fr, guard, self_ty, turbofish, recv, recv_expr)
 
     def coerce_return(self, fn, out):
         if "HashSet<" in fn["sig"].get("ret", "") and isinstance(out, VecV):
@@ -448,6 +679,41 @@ class StructMachine(Machine):
         f = e["func"]
         if f["k"] == "path" and f["path"] in ("HashSet::new", "std::collections::HashSet::new"):
             return SetZ(())
+        if f["k"] == "path":
+            p = f["path"]
+            if p.endswith("NaiveDate::from_ymd_opt"):
+                y, m, d = [self.eval(a, fr, guard) for a in e["args"]]
+                y, m, d = [x if is_sym(x) else z3.IntVal(x) for x in (y, m, d)]
+                return Opt(valid_date(y, m, d), DateV(y, m, d))
+            if p.endswith("NaiveTime::from_hms_opt"):
+                h, mi, sec = [self.eval(a, fr, guard) for a in e["args"]]
+                h, mi, sec = [x if is_sym(x) else z3.IntVal(x) for x in (h, mi, sec)]
+                return Opt(z3.And(h >= 0, h < 24, mi >= 0, mi < 60, sec >= 0, sec < 60), TimeV(h, mi, sec))
+            if p.endswith("NaiveDate::parse_from_str"):
+                sv, fmt = [self.eval(a, fr, guard) for a in e["args"]]
+                if isinstance(sv, ChronoStr) and isinstance(sv.v, DateV):
+                    if sv.fmt == fmt:
+                        return Res(True, sv.v, Opaque("chrono::ParseError"))
+                    raise Unsupported("parse_from_str(%r) of a date formatted with %r" % (fmt, sv.fmt))
+                if fmt != "%Y-%m-%d":
+                    raise Unsupported("NaiveDate::parse_from_str with format %r" % (fmt,))
+                sz = to_strz(sv)
+                dg = z3.Range("0", "9")
+                shape = z3.InRe(sz, z3.Concat(dg, dg, dg, dg, z3.Re("-"), dg, dg, z3.Re("-"), dg, dg))
+                num = lambda off, L: sum((z3.StrToCode(z3.SubString(sz, off + k, 1)) - 48) * (10 ** (L - 1 - k)) for k in range(L))
+                y, m, d = num(0, 4), num(5, 2), num(8, 2)
+                return Res(z3.And(shape, valid_date(y, m, d)), DateV(y, m, d), Opaque("chrono::ParseError"))
+            if p.endswith("String::deserialize") and getattr(self, "deser_feed", None) is not None:
+                return Res(True, self.deser_feed, Opaque("de-error"))
+            if p.endswith("String::deserialize"):
+                sname = self.fresh_name("deserialized")
+                sv = z3.String(sname)
+                self.deser_inputs.append(sv)
+                return Res(True, StrZ(sv), Opaque("de-error"))
+            if p.endswith("Error::custom"):
+                for a in e["args"]:
+                    self.eval(a, fr, guard)
+                return Opaque("serde-error")
         return super().ev_call(e, fr, guard)
 
     def ev_mcall(self, e, fr, guard):
@@ -563,6 +829,18 @@ def to_json(prog, model, val, ty=None, meta=None):
         return True, v.as_long()
     if isinstance(val, (bool, int, str)):
         return True, val
+    if isinstance(val, DateV):
+        w = _serde_attr(meta or {}, "with") or ""
+        y, mo, d = (ev(t).as_long() for t in (val.y, val.m, val.d))
+        if "date_format" in w:
+            return True, "%02d%02d%02d" % (y % 100, mo, d)
+        return True, "%04d-%02d-%02d" % (y, mo, d)
+    if isinstance(val, TimeV):
+        w = _serde_attr(meta or {}, "with") or ""
+        h, mi = ev(val.h).as_long(), ev(val.mi).as_long()
+        if "time_format" in w:
+            return True, "%02d%02d" % (h, mi)
+        return True, "%02d:%02d:00" % (h, mi)
     if isinstance(val, Opaque):
         w = _serde_attr(meta or {}, "with") or ""
         if "NaiveTime" in val.what or "time" in w:
